@@ -61,7 +61,7 @@ FAILURES = {
 
 
 RAISERS = ["vfact.boom_assert", "vfact.boom_key", "vfact.boom_type", "vfact.boom_attr", "vfact.boom_import", "vfact.boom_stop", "vfact.boom_os",
-           "vfact.boom_lookup", "vfact.boom_runtime", "vfact.boom_notimpl"]
+           "vfact.boom_lookup", "vfact.boom_runtime", "vfact.boom_notimpl", "vfact.boom_percent", "vfact.boom_pattern", "vfact.boom_percent"]
 
 
 def plan(tier, seed):
@@ -97,6 +97,8 @@ def gen_tree(rnd, depth, density, counter, max_depth):
             key = rnd.choice(["factory", "func", "mapping", "kwargs", "args", "where", "structure", "absolute_name", "name", "target"])
         if not is_type and rnd.random() < 0.12:
             key = rnd.choice([1, 0, 3, True, None, 0.5])  # YAML mappings may have keys that are not strings
+        elif not is_type and rnd.random() < 0.06:
+            key = "__args__"  # plain data may use any key: without __type__ this is just a key (a job template, quoted settings)
         if key not in node:
             node[key] = gen_tree(rnd, depth + 1, density, counter, max_depth)
     if is_type and rnd.random() < 0.3:  # key order: __type__ need not come first
